@@ -283,55 +283,66 @@ Proof.
 Qed.
 
 (* ---------------------------------------------------------------------------------------- *)
-(* witnesses: the faithful model violates the full statement (replays in corpus/C14) *)
+(* getPrefixForNamespace only answers with a prefix that is still bound to the URI (KN1 repair) *)
+
+Lemma prefix_for_ns_sound : forall k u p, prefix_for_ns k u = Some p -> ns_for_prefix k p = Some u.
+Proof.
+  unfold prefix_for_ns. intros k u p H.
+  destruct (all_empty k) eqn:E; [discriminate|].
+  destruct (stk_prefix_for u k) as [q|]; [|discriminate].
+  destruct (ns_for_prefix k q) as [w|] eqn:Eq; [|discriminate].
+  destruct (N.eqb w u) eqn:Ew; [|discriminate].
+  inversion H; subst. apply N.eqb_eq in Ew. subst. exact Eq.
+Qed.
+
+(* ---------------------------------------------------------------------------------------- *)
+(* witnesses: the faithful model still violates the full statement in two classes (known findings
+   K17, KN6; replays in corpus/C14); the programs of the repaired defects are regression examples *)
 
 Definition U (n : N) : atom := AUser n.
 
-(* K3: xsl:element name="a:e" namespace="u5" + xsl:attribute name="b:x" (xmlns:b="u5") *)
-Definition k3_prog : list op :=
-  [OElem (Some (U 1), U 2) (Some 5) None None 0; OAttr (Some (U 3), U 4) None (Some 5) 7; OEnd].
-(* K16: xsl:element name="xmlns:e" namespace="u9" *)
-Definition k16_prog : list op := [OElem (Some AXmlns, U 2) (Some 9) None None 0; OEnd].
 (* K17: attributes a@u11, a@u12, x:a@u11 on one literal result element *)
 Definition k17_prog : list op :=
   [OLre (None, U 2) [] [] []; OAttr (None, U 5) (Some 11) None 1; OAttr (None, U 5) (Some 12) None 2;
    OAttr (Some (U 6), U 5) (Some 11) None 3; OEnd].
-(* KN1: <p:a xmlns:p="u4"><p:b xmlns:p="u5"> + xsl:attribute name="x" namespace="u4" *)
-Definition shadow_prog : list op :=
-  [OLre (Some (U 1), U 2) [(Some (U 1), 4)] [] []; OLre (Some (U 1), U 3) [(Some (U 1), 5); (Some (U 1), 4)] [] [];
-   OAttr (None, U 4) (Some 4) None 1; OEnd; OEnd].
-(* KN2: <e>t<xsl:attribute name="a" namespace="u4"/><f/></e> *)
-Definition leak_prog : list op :=
-  [OLre (None, U 1) [] [] []; OText; OAttr (None, U 2) (Some 4) None 1; OLre (None, U 3) [] [] []; OEnd; OEnd].
-(* KN3: xsl:attribute name="xmlq:a" with xmlns:xmlq="u4" *)
-Definition xmlish_prog : list op :=
-  [OLre (None, U 1) [] [] []; OAttr (Some (AXmlish 0), U 2) None (Some 4) 1; OEnd].
-(* KN4: xsl:element name="zz:e" namespace="" with zz undeclared *)
-Definition undecl_prog : list op := [OElem (Some (U 1), U 2) (Some 0) None None 0; OEnd].
-(* KN5: xsl:attribute name="xml:a" namespace="u4" *)
-Definition xmlprefix_prog : list op :=
-  [OLre (None, U 1) [] [] []; OAttr (Some AXml, U 2) (Some 4) None 1; OEnd].
 (* KN6: xsl:element name="p:e" namespace="" with xmlns:p="u4" *)
 Definition emptyns_prog : list op := [OElem (Some (U 1), U 2) (Some 0) (Some 4) None 0; OEnd].
 
 Definition refuted (p : list op) : Prop :=
   guard_ok p = false /\ wellformed (events (run p)) = false.
+Definition accepted (p : list op) : Prop :=
+  guard_ok p = true /\ wellformed (events (run p)) = true.
 
-Lemma k3_refuted_l : refuted k3_prog. Proof. vm_compute. split; reflexivity. Qed.
-Lemma k16_refuted_l : refuted k16_prog. Proof. vm_compute. split; reflexivity. Qed.
 Lemma k17_refuted_l : refuted k17_prog. Proof. vm_compute. split; reflexivity. Qed.
-Lemma shadow_refuted_l : refuted shadow_prog. Proof. vm_compute. split; reflexivity. Qed.
-(* the reader accepts the leaked attribute (it is declared), but it sits on <f>, which asked for none *)
-Lemma leak_refuted_l :
-  guard_ok leak_prog = false /\
-  nth 2 (events (run leak_prog)) EText =
-    EStart (None, U 3) (0, U 3)
-      [mkAttr (Some AXmlns, AGen 0) 4 no_req; mkAttr (Some (AGen 0), U 2) 1 (4, U 2)].
-Proof. vm_compute. split; reflexivity. Qed.
-Lemma xmlish_refuted_l : refuted xmlish_prog. Proof. vm_compute. split; reflexivity. Qed.
-Lemma undecl_refuted_l : refuted undecl_prog. Proof. vm_compute. split; reflexivity. Qed.
-Lemma xmlprefix_refuted_l : refuted xmlprefix_prog. Proof. vm_compute. split; reflexivity. Qed.
 Lemma emptyns_refuted_l : refuted emptyns_prog. Proof. vm_compute. split; reflexivity. Qed.
+
+(* repaired: K3, K16 (xmlns: and xml:), KN1, KN2, KN3, KN4, KN5 *)
+Definition k3_prog : list op :=
+  [OElem (Some (U 1), U 2) (Some 5) None None 0; OAttr (Some (U 3), U 4) None (Some 5) 7; OEnd].
+Definition k16_prog : list op := [OElem (Some AXmlns, U 2) (Some 9) None None 0; OEnd].
+Definition k16b_prog : list op := [OElem (Some AXml, U 2) (Some 9) None None 0; OEnd].
+Definition shadow_prog : list op :=
+  [OLre (Some (U 1), U 2) [(Some (U 1), 4)] [] []; OLre (Some (U 1), U 3) [(Some (U 1), 5); (Some (U 1), 4)] [] [];
+   OAttr (None, U 4) (Some 4) None 1; OEnd; OEnd].
+Definition leak_prog : list op :=
+  [OLre (None, U 1) [] [] []; OText; OAttr (None, U 2) (Some 4) None 1; OLre (None, U 3) [] [] []; OEnd; OEnd].
+Definition xmlish_prog : list op :=
+  [OLre (None, U 1) [] [] []; OAttr (Some (AXmlish 0), U 2) None (Some 4) 1; OEnd].
+Definition undecl_prog : list op := [OElem (Some (U 1), U 2) (Some 0) None None 0; OEnd].
+Definition xmlprefix_prog : list op :=
+  [OLre (None, U 1) [] [] []; OAttr (Some AXml, U 2) (Some 4) None 1; OEnd].
+
+Lemma k3_accepted_l : accepted k3_prog. Proof. vm_compute. split; reflexivity. Qed.
+Lemma k16_accepted_l : accepted k16_prog. Proof. vm_compute. split; reflexivity. Qed.
+Lemma k16b_accepted_l : accepted k16b_prog. Proof. vm_compute. split; reflexivity. Qed.
+Lemma shadow_accepted_l : accepted shadow_prog. Proof. vm_compute. split; reflexivity. Qed.
+Lemma xmlish_accepted_l : accepted xmlish_prog. Proof. vm_compute. split; reflexivity. Qed.
+Lemma undecl_accepted_l : accepted undecl_prog. Proof. vm_compute. split; reflexivity. Qed.
+Lemma xmlprefix_accepted_l : accepted xmlprefix_prog. Proof. vm_compute. split; reflexivity. Qed.
+(* the late attribute is dropped: <f> is written without attributes *)
+Lemma leak_accepted_l :
+  accepted leak_prog /\ nth 2 (events (run leak_prog)) EText = EStart (None, U 3) (0, U 3) [].
+Proof. vm_compute. repeat split; reflexivity. Qed.
 
 (* non-vacuity: programs on which the guard holds and the reader accepts the events, exercising
    prefix invention, re-binding of a prefix at a deeper level, xmlns="" and an excluded namespace
@@ -342,9 +353,7 @@ Definition ok_prog1 : list op :=
    OAttr (Some (U 7), U 4) (Some 6) None 1; OAttr (None, U 4) (Some 7) None 2; OAttr (None, U 5) (Some 8) None 2;
    OEnd; OEnd].
 Definition ok_prog2 : list op :=
-  [OLre (None, U 1) [(None, 4)] [] [((None, AXmlns), 4)]; OElem (None, U 2) (Some 0) None (Some 4) 4;
+  [OLre (None, U 1) [(None, 4)] [] []; OElem (None, U 2) (Some 0) None (Some 4) 4;
    OAttr (Some (U 3), U 4) None (Some 5) 9; OEnd; OEnd].
-Lemma ok_prog1_l : guard_ok ok_prog1 = true /\ wellformed (events (run ok_prog1)) = true.
-Proof. vm_compute. split; reflexivity. Qed.
-Lemma ok_prog2_l : guard_ok ok_prog2 = true /\ wellformed (events (run ok_prog2)) = true.
-Proof. vm_compute. split; reflexivity. Qed.
+Lemma ok_prog1_l : accepted ok_prog1. Proof. vm_compute. split; reflexivity. Qed.
+Lemma ok_prog2_l : accepted ok_prog2. Proof. vm_compute. split; reflexivity. Qed.
